@@ -363,6 +363,9 @@ def run_native(top, registry, state, extra_check=None):
                 for i, ok in enumerate(vals):
                     if not ok:
                         failed.append(f'post#{names[i] if i < len(names) else i}')
+            rf = (getattr(top, 'extra', {}) or {}).get('result')
+            if rf is not None and not (res == call_clause(rf, env2)):
+                failed.append('post#result')
         else:
             env2['exc'] = exc
             matched = None
